@@ -120,7 +120,10 @@ ExactScenario(cfg) ==
     /\ \A p \in Range(cfg.pods) : NoInterPod(p)
     /\ \A t \in Range(cfg.types) : \A i \in DOMAIN t.offerings : t.offerings[i].cpuOv = 0 /\ t.offerings[i].memOv = 0
     /\ \A d \in Range(cfg.ds) : Len(d.terms) <= 1 /\ DaemonKeys(d) \subseteq {"arch", "os", "it", "gen"}
-ExactPod(e) == NoInterPod(e) /\ e.vols = <<>> /\ e.pref = <<>>
+ExactPod(e) ==
+    /\ NoInterPod(e) /\ e.vols = <<>> /\ e.pref = <<>>
+    \* every key is constrained once (contradictory constraints on one key are the C12 / C01 findings, not C19's business)
+    /\ \A j \in DOMAIN e.terms : DOMAIN e.sel \cap TermKeys(e.terms[j]) = {} /\ Cardinality(TermKeys(e.terms[j])) = Len(e.terms[j])
 
 (* G_C19_HighestWeightFeasible, at the moment pod e opens a new node in pool `pn`; left[name] = the     *)
 (* remaining limits of every pool BEFORE this open.  Ties in weight are free.                            *)
@@ -174,12 +177,16 @@ SigTypes(cfg, pool, options, cr) ==
     IF ~x.listed THEN "no-instance-type-list" ELSE IF ~x.subset THEN "not-an-option" ELSE "minvalues-floor-broken"
 (* (c) requests: the pods of the claim plus daemon overhead.  Lower bound: the daemonsets that run on    *)
 (* EVERY node the claim may become (minimum over the scheduler's options and their compatible available   *)
-(* offerings, per resource).  Upper bound: the pods plus every daemonset that tolerates the pool's taints *)
+(* offerings, per resource; an option that has no such offering - Karpenter keeps them on a NodeClaim     *)
+(* pinned to reserved capacity - counts with no overhead at all, DESIGN C13 (c) takes the minimum over    *)
+(* every remaining option).  Upper bound: the pods plus every daemonset that tolerates the pool's taints  *)
 (* (overhead counted once - a request above that is not "the pods plus daemon overhead").                 *)
 MinRes(S) == [cpu |-> MinOf({x.cpu : x \in S}), mem |-> MinOf({x.mem : x \in S}), pods |-> MinOf({x.pods : x \in S})]
 CertainOverheads(cfg, c, options) ==
-    UNION {LET it == TypeByName(cfg, n) IN
-           {SumReq(CertainDaemons(cfg, c, it, it.offerings[i])) : i \in {j \in DOMAIN it.offerings : it.offerings[j].available /\ OfferingCompat(cfg, c, it.offerings[j])}}
+    UNION {LET it == TypeByName(cfg, n)
+               launch == {j \in DOMAIN it.offerings : it.offerings[j].available /\ OfferingCompat(cfg, c, it.offerings[j])} IN
+           IF launch = {} THEN {[cpu |-> 0, mem |-> 0, pods |-> 0]}
+           ELSE {SumReq(CertainDaemons(cfg, c, it, it.offerings[i])) : i \in launch}
            : n \in KnownNames(cfg, options)}
 RequestParts(cfg, pool, c, options, cr) ==
     LET pods == SumReq(ClaimPods(cfg, c))
